@@ -48,7 +48,7 @@ CHECKS = {
     },
     "C20": {
         "engine": "sweep", "level": "exploration", "design_ref": "DESIGN.md §21",
-        "technique": "bounded exhaustive enumeration of inputs (all strings <= 5/6 symbols over a 17-symbol alphabet, small integer cubes) executed on the implementation, compared with an independent reference",
+        "technique": "bounded exhaustive enumeration of inputs (all strings <= 5/6 symbols over an 18-symbol alphabet, small integer cubes) executed on the implementation, compared with an independent reference",
         "text": "Every string up to the length bound over the alphabet and every integer/alignment/length tuple in the stated ranges is executed on the real helpers and compared with an own recogniser / arithmetic; inside the bounds the answer is complete, outside (longer strings, other symbols) nothing is claimed.",
         "note": "Trusted: the reference recogniser in vf/props/c20.py (transcribed from the documented grammar) and Python's integer arithmetic.",
     },
